@@ -8,7 +8,7 @@ import engine
 from engine import Op, set_mode
 
 PROP = "C09"
-LEAN_MODULES = ["IsoDT.Props.C09"]
+LEAN_MODULES = ["IsoDT.Props.C09", "IsoDT.Props.C09b"]
 RULE = ("constructor: keyword tuples in and around every legal range (month 0/1/12/13, day 0/1/last/last+1 per "
         "month and year type, ordinal 0/1/365/366/367, week 0/1/52/53/54, weekday 0/1/7/8, hour 23/24/25, 24:xx, "
         "minute/second 59/60, zone parts around +-99/+-59 and of conflicting sign), every mode and year type, "
